@@ -1,11 +1,10 @@
-/- line-protocol driver for C05: `drv_c05 init` / `drv_c05 initu` (see Driver/InitCmd.lean for the protocol).
+/- line-protocol driver for C05: `drv_c05 init` (see Driver/InitCmd.lean for the protocol).
    Core Lean only (nothing imported here may import Mathlib, or the executable will not link). -/
 import ChibiVerif.Driver.InitCmd
 
 def main (args : List String) : IO UInt32 := do
   match args with
   | "init" :: _ => ChibiVerif.Driver.InitCmd.initMain
-  | "initu" :: _ => ChibiVerif.Driver.InitCmd.initUMain
   | _ =>
-    IO.eprintln "usage: drv_c05 init|initu"
+    IO.eprintln "usage: drv_c05 init"
     return 2
